@@ -5,6 +5,7 @@ pristine fork. Oracle: linearizability against the real code run serially in sib
 pristine forks; no call may raise; no deadlock; no run-away.
 """
 import ast
+import dataclasses
 import itertools
 import os
 import sys
@@ -57,7 +58,9 @@ PAIR_NAMES = [('uuid', 'uuid2'), ('uuid', 'uuid_in_list'), ('uuid_in_dict', 'mpr
               ('fits_exactly', 'tiny3'), ('reentrant', 'reentrant'), ('oldstyle', 'uuid'), ('h_re_sub', 'h_re'),
               ('comment_wrapping', 'commented'), ('commented', 'many_comments'), ('comment_wrapping', 'many_comments'),
               ('uuid', 'h_pred_lazy'), ('h_pred_lazy', 'h_sub_b'), ('h_pred_lazy', 'h_pred_lazy'),
-              ('many_floats', 'containers'), ('h_pred_c', 'h_pred_b'), ('h_pred_b', 'h_pred_c'), ('h_pred_c', 'h_pred'),
+              ('many_floats', 'containers'), ('dataclass', 'dataclass'), ('dataclass', 'dataclass2'), ('attrs', 'attrs'),
+              ('ipython_protocol', 'ipython_protocol'), ('h_bad', 'h_bad'), ('h_bad', 'h_unreg'),
+              ('containers', 'deep_indent'), ('deep_indent', 'long_str_nested'), ('tiny3', 'deep_indent'), ('h_pred_c', 'h_pred_b'), ('h_pred_b', 'h_pred_c'), ('h_pred_c', 'h_pred'),
               ('h_pred_mixed', 'h_pred_c'), ('h_pred_c', 'h_pred_c'), ('h_memo', 'h_memo'), ('uuid', 'enum'),
               ('enum', 'uuid'), ('h_sub_a', 'enum'), ('partial', 'ppath'), ('ast', 'ast'), ('h_pred', 'h_unreg')]
 PROBE_RANGES = {}   # probe -> (funcname, lo, hi)
@@ -144,6 +147,42 @@ class OldStyle:
         return 'OldStyle(%s)' % P.pformat(self.x, width=200)
 
 
+
+@dataclasses.dataclass
+class DPoint:
+    x: int
+    y: int = 0
+    tags: list = dataclasses.field(default_factory=list)
+    hidden: int = dataclasses.field(default=1, repr=False)
+
+
+try:
+    import attr as _attr
+
+    @_attr.s
+    class APoint:
+        x = _attr.ib()
+        y = _attr.ib(default=0)
+        tags = _attr.ib(factory=list)
+except ImportError:      # pragma: no cover
+    APoint = None
+
+
+class IPy:
+    """implements IPython's _repr_pretty_ protocol"""
+
+    def __init__(self, items):
+        self.items = items
+
+    def _repr_pretty_(self, p, cycle):
+        with p.group(4, 'IPy(', ')'):
+            for i, x in enumerate(self.items):
+                if i:
+                    p.text(',')
+                    p.breakable()
+                p.pretty(x)
+
+
 class HBase2:
     def __init__(self, *a):
         self.a = a
@@ -176,7 +215,9 @@ def setup():
     import time
     import types
     import uuid
-    from prettyprinter import register_pretty, pretty_call, comment, trailing_comment
+    from prettyprinter import register_pretty, pretty_call, comment, trailing_comment, install_extras
+    install_extras(include=['dataclasses', 'ipython_repr_pretty'] + (['attrs'] if APoint else []),
+                   raise_on_error=True)
 
     # by-name registrations: pending until first use inside a run
     @register_pretty(_key(HSubA.__mro__[1]))
@@ -298,6 +339,12 @@ def setup():
     add(('many_floats', 'layout', [i / 7 for i in range(150)], {'width': 60}))
     add(('h_pred', 'plain', HPred('p'), {}))
     add(('h_unreg', 'plain', [HUnreg(), 1], {}))
+    add(('dataclass', 'extras', DPoint(4, 5, ['t']), {}))
+    add(('dataclass2', 'extras', [DPoint(1), DPoint(2, 3)], {'width': 20}))
+    if APoint:
+        add(('attrs', 'extras', APoint(4, 5, ['t']), {}))
+    add(('ipython_protocol', 'extras', IPy([1, [2, 3], IPy(['x' * 30, 'y' * 30])]), {'width': 40}))
+    add(('deep_indent', 'layout', {'a': {'b': {'c': {'d': ['x' * 30, 'y' * 30, 'z' * 30]}}}}, {'width': 40}))
     add(('h_pred_b', 'plain', HPredB(1), {}))
     add(('h_pred_c', 'plain', [HPredC(2), HPredC()], {}))
     add(('h_pred_mixed', 'plain', [HPredC(), HPredB(), HPred('x')], {}))
@@ -453,7 +500,7 @@ def _measure_serial_steps():
 
 
 # ------------------------------------------------------------------ generation
-GROUP_W = [('lazy', 5), ('hlazy', 4), ('plain', 2), ('cache', 2), ('layout', 2), ('shared', 1)]
+GROUP_W = [('lazy', 5), ('hlazy', 4), ('plain', 2), ('cache', 2), ('layout', 2), ('shared', 1), ('extras', 2)]
 
 
 def _pick_item(rng):
